@@ -434,7 +434,9 @@ func (t *WType) jsonSchema(refPrefix string) map[string]any {
 
 // RenderJSONSchema renders the package as a draft-07 document whose root
 // object references every other definition (so that all of them are parsed).
-func (p *WPackage) RenderJSONSchema() string {
+func (p *WPackage) RenderJSONSchema() string { return p.renderJSONSchemaRoot("Root") }
+
+func (p *WPackage) renderJSONSchemaRoot(rootName string) string {
 	defs := map[string]any{}
 	rootProps := map[string]any{}
 	for _, o := range p.Objects {
@@ -447,10 +449,10 @@ func (p *WPackage) RenderJSONSchema() string {
 		defs[o.Name] = s
 		rootProps["f_"+o.Name] = map[string]any{"$ref": "#/definitions/" + o.Name}
 	}
-	defs["Root"] = map[string]any{"type": "object", "properties": rootProps}
+	defs[rootName] = map[string]any{"type": "object", "properties": rootProps}
 	doc := map[string]any{
 		"$schema":     "http://json-schema.org/draft-07/schema#",
-		"$ref":        "#/definitions/Root",
+		"$ref":        "#/definitions/" + rootName,
 		"definitions": defs,
 	}
 	b, _ := json.MarshalIndent(doc, "", " ")
